@@ -2,6 +2,7 @@ package runtime
 
 import (
 	"fmt"
+	"google.golang.org/protobuf/encoding/protowire"
 	"google.golang.org/protobuf/proto"
 	"google.golang.org/protobuf/runtime/protoiface"
 	"io"
@@ -131,11 +132,26 @@ func UnmarshalInputToOptions(input protoiface.UnmarshalInput) proto.UnmarshalOpt
 		AllowPartial:      true, // defaults to true as the required fields check is done after the unmarshalling
 		DiscardUnknown:    input.Flags&protoiface.UnmarshalDiscardUnknown != 0,
 		Resolver:          input.Resolver,
+		RecursionLimit:    nestedRecursionLimit(input.Depth),
 	}
+}
+
+// nestedRecursionLimit returns the recursion budget left for the messages nested in the one being
+// decoded with budget depth (zero means unset, i.e. the protobuf-go default). An exhausted budget is
+// returned as a negative limit, because proto.UnmarshalOptions reads a zero limit as the default.
+func nestedRecursionLimit(depth int) int {
+	if depth == 0 {
+		depth = protowire.DefaultRecursionLimit
+	}
+	if depth <= 1 {
+		return -1
+	}
+	return depth - 1
 }
 
 var (
 	ErrInvalidLength        = fmt.Errorf("proto: negative length found during unmarshaling")
 	ErrIntOverflow          = fmt.Errorf("proto: integer overflow")
 	ErrUnexpectedEndOfGroup = fmt.Errorf("proto: unexpected end of group")
+	ErrRecursionDepth       = fmt.Errorf("proto: exceeded max recursion depth")
 )
